@@ -92,7 +92,9 @@ func (e *Engine) DetachHandler(prefix enc.Name) error {
 	if n == nil {
 		return ndn.ErrInvalidValue{Item: "prefix", Value: prefix}
 	}
-	n.Delete()
+	// Remove only this handler: handlers attached at shorter or longer prefixes stay
+	n.SetValue(nil)
+	n.DeleteIf(func(handler fibEntry) bool { return handler == nil })
 	return nil
 }
 
